@@ -2,6 +2,7 @@
 of what the run reads, independent decoding of the storage, comparison with the Gallina models (rotation / retention:
 Verify.publish + gc; manifest: Dedup.new_backup; restore: Restore2.exec) and direct evaluation of the properties."""
 import calendar
+import json
 import os
 import shutil
 import stat
@@ -42,6 +43,7 @@ class World:
         self.mtime_counter = 1500000000
         self.content_counter = 0
         self.contents = {}          # sha512 hex -> bytes (everything this world ever wrote)
+        self.path_inodes = {}       # path -> inode numbers it has had (see rename_over)
         for it in self.items:
             os.makedirs(os.path.join(self.src, it))
         self.write_config()
@@ -255,9 +257,23 @@ class World:
         if not data or len(p.encode()) >= 3400:
             return False
         newd = bytes((b + 1) % 256 for b in data)
+        # the file system reuses inode numbers: two replacements of one path between two backups could bring back the very inode (and with it
+        # the very fingerprint) an earlier backup recorded, which would break the property's own assumption - insist on a number this path
+        # never had
+        seen = self.path_inodes.setdefault(p, set())
+        seen.add(st.st_ino)
+        spare = []
         q = p + ".new"
-        with open(q, "wb") as f:
-            f.write(newd)
+        while True:
+            with open(q, "wb") as f:
+                f.write(newd)
+            if os.lstat(q).st_ino not in seen or len(spare) > 50:
+                break
+            spare.append(q + ".spare%d" % len(spare))
+            os.rename(q, spare[-1])
+        for x in spare:
+            os.remove(x)
+        seen.add(os.lstat(q).st_ino)
         self.remember(newd)
         os.chown(q, st.st_uid, st.st_gid)
         os.chmod(q, stat.S_IMODE(st.st_mode))
@@ -459,7 +475,7 @@ class History:
     def violation(self, prop, what, extra=None):
         if prop != self.focus:
             # another property's statement: recorded as a correspondence-level observation of this check
-            self.diff("property %s" % prop, what)
+            self.diff("property %s" % prop, what if not extra else "%s %s" % (what, json.dumps(extra, default=str)[:1500]))
             return
         payload = {"history": self.log[-40:], "limits": [self.w.max_groups, self.w.max_per]}
         if extra:
@@ -571,7 +587,8 @@ class History:
             for n, l in zip(files, lines):
                 if l["path"] != os.fsencode(n["path"]) or l["size"] != len(n["data"]) or l["fp"] != n["fp"] or l["hash"] != slevel.sha512(n["data"]):
                     self.violation("C10", "manifest line of %r does not record the file's length, SHA-512 and (device, inode, mtime)" % l["path"],
-                                   {"line": {k: (v.decode("utf-8", "replace") if isinstance(v, bytes) else v) for k, v in l.items()}})
+                                   {"line": {k: (v.decode("utf-8", "replace") if isinstance(v, bytes) else v) for k, v in l.items()},
+                                    "source": {"path": n["path"], "size": len(n["data"]), "fp": n["fp"], "sha512": slevel.sha512(n["data"])[:16], "nlink": n.get("nlink")}})
                     break
         for f in newb.get("files", []):
             if f["mode"] != 0o600:
